@@ -62,6 +62,14 @@ def main(tier):
     sp = common.transfer_specs(tier, seed, n_quick=28, n_thorough=200, dur_ms=12000, extra=False)
     sp = [s for i, s in enumerate(sp) if s["label"].endswith("/clean") or i % 5 == 0]
     sp += margin_specs(tier, seed)
+    # chunk tails: upstream packets whose last chunk carries exactly 1, 2, 3 bytes (and a full one), every codec / limit
+    for i in range(12 if q else 96):
+        pk = [[300 + 1500 * j, "C0", "S", "frags:%d:t%d" % (2 + (i + j) % 3, [1, 2, 1, 3, 1, 57][(i + j) % 6]), 0] for j in range(5)]
+        sp.append({"seed": seed * 100000 + 52000 + i, "uppackets": True,
+                   "sess": {"qtype": common.QTYPES[i % 7], "maxlen": [None, 200, 140, 100][i % 4], "lazy": i % 2,
+                            "downenc": common.DOWNENCS[i % 5]},
+                   "relay": [{}, {"qcase": "lower"}, {"q8": "strip"}, {"q8": "strip", "qpunct": "plus"}][(i // 4) % 4],
+                   "pkts": pk, "dur_ms": 12000, "label": "tails%d" % i})
     results = common.run_specs(sp, ["C08"])
     wpath = os.path.join(vcheck.scratch(), "wire-%d.ndjson" % os.getpid())
     nw = 0
